@@ -7805,7 +7805,10 @@ class SFTPServer:
         if posixpath.isabs(oldpath):
             oldpath = self.map_path(oldpath)
         else:
-            newdir = posixpath.dirname(newpath)
+            # Use the directory the link will really be created in: map_path
+            # normalizes newpath, so 'a/' or 'a/.' creates the link 'a'
+            newdir = posixpath.dirname(
+                posixpath.normpath(posixpath.join(b'/', newpath)))
             abspath1 = self.map_path(posixpath.join(newdir, oldpath))
 
             mapped_newdir = self.map_path(newdir)
